@@ -13,6 +13,15 @@ fn main() {
     std::io::stdin().read_to_string(&mut src).unwrap();
     std::panic::set_hook(Box::new(|_| {}));
     let reuse = std::env::args().any(|a| a == "--one-engine");
+    // `--module`: every program is written to a file and evaluated as `(require "<file>")`: this is how
+    // `steel file.scm` runs a script, and module-level code takes other compiler / JIT paths than top-level code.
+    // The values of top-level forms are not observable then; output and outcome are.
+    let as_module = std::env::args().any(|a| a == "--module");
+    let mod_dir = format!("/verif/.build/C01/mods/{}", std::process::id());
+    if as_module {
+        let _ = std::fs::create_dir_all(&mod_dir);
+    }
+    let mut counter = 0usize;
     let mut shared = if reuse { Some(steel::steel_vm::engine::Engine::new()) } else { None };
     for prog in src.split("\n;;;===\n") {
         if prog.trim().is_empty() {
@@ -20,7 +29,14 @@ fn main() {
         }
         println!("\u{1e}B");
         std::io::stdout().flush().ok();
-        let prog = prog.to_string();
+        counter += 1;
+        let prog = if as_module {
+            let path = format!("{}/m{}.scm", mod_dir, counter);
+            let _ = std::fs::write(&path, prog);
+            format!("(require \"{}\")", path)
+        } else {
+            prog.to_string()
+        };
         let r = catch_unwind(AssertUnwindSafe(|| match shared.as_mut() {
             Some(e) => e.compile_and_run_raw_program(prog),
             None => steel::steel_vm::engine::Engine::new().compile_and_run_raw_program(prog),
@@ -48,5 +64,8 @@ fn main() {
                 println!("\n\u{1e}P {}", msg.lines().next().unwrap_or(""));
             }
         }
+    }
+    if as_module {
+        let _ = std::fs::remove_dir_all(&mod_dir);
     }
 }
